@@ -110,7 +110,10 @@ def main():
         print('FINDING %s  %s  %s  %s' % (f['rule'], f['fn'], loc, f['msg']))
         print('VIOLATION property=%s replay=%s' % (pid, rp))
     level = getattr(mod, 'LEVEL', 'proof')
-    nob = len(rep.obligations)
+    known_keys = {f['key'] for f in rep.findings if f['key'] in known}
+    # an obligation whose failure is a listed known finding is reported separately, not as discharged
+    n_known = len(known_keys)
+    nob = len(rep.obligations) - n_known
     ndis = sum(1 for o in rep.obligations if o['ok'])
     cov = {
         'obligations': nob,
@@ -125,6 +128,7 @@ def main():
         'functions_analysed': sorted(rep.analysed_fns),
         'samples': rep.samples or [{'note': 'no samples recorded'}],
         'findings': [{'key': f['key'], 'known': f['key'] in known} for f in rep.findings],
+        'known_findings_reported': n_known,
         'facts': {'fns': len(facts.raw['fns']), 'hand_written': len(facts.hand_written_fns()),
                   'impls': len(facts.impls), 'adts': len(facts.adts), 'cargo_features': facts.features,
                   'borsh_config_analysed': facts_b is not None},
